@@ -265,14 +265,21 @@ fn c05_case(src: &mut Src, ctx: &mut Ctx) -> Result<(), String> {
 /// version-gated statements under every version: whatever the reader accepts, the writer must emit
 fn c05_gated(src: &mut Src, ctx: &mut Ctx) -> Result<(), String> {
     let i = src.u64();
-    let v = VERSIONS[(i % 6) as usize];
-    let stmt = (i / 6) % 3;
+    let stmt = (i / 8) % 3;
     let body = match stmt {
         0 => "NAMESCASESENSITIVE ON ;",
         1 => "NOWIREEXTENSIONATPIN OFF ;",
         _ => "MACRO m SOURCE USER ; END m",
     };
-    let txt = format!("VERSION {} ; {} END LIBRARY", crate::gen::lef::spell_plain(&LefDecimal::new(v.0, v.1)), body);
+    // under each version, with no VERSION statement at all, and with the VERSION statement after the gated one
+    let txt = match i % 8 {
+        6 => format!("{} END LIBRARY", body),
+        7 => format!("{} VERSION 5.4 ; END LIBRARY", body),
+        k => {
+            let v = VERSIONS[k as usize];
+            format!("VERSION {} ; {} END LIBRARY", crate::gen::lef::spell_plain(&LefDecimal::new(v.0, v.1)), body)
+        }
+    };
     match open_text(&txt) {
         Err(_) => {
             ctx.refused("reader rejects this statement under this version");
@@ -397,11 +404,11 @@ fn c05_lefrw(src: &mut Src, ctx: &mut Ctx) -> Result<(), String> {
     }
 }
 fn run_c05(run: &mut Run) {
-    run.rule("The image of the reader: every library obtained by reading the rendered texts of G-lef values (versions 5.3-5.8, every construct the writer emits), plus the version-gated statements under every version (6 versions x 3 statements, exhaustive), three dozen statements the reader refuses today or accepts in part (under every version: whatever is accepted must be carried by the writer) and hand-written texts. Oracle: to_string()/save() succeed and reading the text back gives an equal library. Non-trivial = library with a site, via, extension, property definition, property, density or a pin attribute beyond direction/use; distinct by hash of the value.");
+    run.rule("The image of the reader: every library obtained by reading the rendered texts of G-lef values (versions 5.3-5.8, every construct the writer emits), plus the version-gated statements under every version (6 versions, no VERSION statement, VERSION after the statement: x 3 statements, exhaustive), three dozen statements the reader refuses today or accepts in part (under every version: whatever is accepted must be carried by the writer) and hand-written texts. Oracle: to_string()/save() succeed and reading the text back gives an equal library. Non-trivial = library with a site, via, extension, property definition, property, density or a pin attribute beyond direction/use; distinct by hash of the value.");
     run.assume("the layout of the written text is free; libraries outside the reader's image are not generated");
     run.min_nontrivial = 300;
     run.literals("literals", &(0..4u32).map(|i| vec![0, i]).collect::<Vec<_>>(), &c05_literal);
-    run.enumerate("version-gated", 18, &c05_gated);
+    run.enumerate("version-gated", 24, &c05_gated);
     run.enumerate("tolerated-statements", 6 * C05_TOLERATED.len() as u64, &c05_tolerated);
     run.explore("write-read", run.tier.pick(120_000, 1_500_000), 2500, &c05_case);
     // the same, each case in a thread of its own (per-thread state of the code starts from scratch)
